@@ -643,16 +643,31 @@ fn stream_events<F: GenFam>(out: &mut Out, rng: &mut Rng, b: &mut Budget, run: u
     let mut ps = Vec::new();
     let mut stream = Vec::new();
     let mut lens = Vec::new();
+    let mut spelled = false;
     for i in 0..n {
         let t = if rng.chance(1, 4) { *rng.pick(&["Pingreq", "Pingresp", "Disconnect", "Puback"]) } else { types[(run as usize + i * 7) % types.len()] };
         let p = F::gen(rng, b, t);
-        let e = enc::<F>(&p).1.unwrap_or_default();
+        let mut e = enc::<F>(&p).1.unwrap_or_default();
+        // a legal non-canonical spelling of the same packet, as another MQTT stack would send it (short forms
+        // spelled out, properties in another order): same packet, different length
+        if rng.chance(1, 4) {
+            if let Some(fr) = crate::tokens::tokenize(F::NAME, &e) {
+                let sp: Vec<(String, Vec<u8>)> =
+                    crate::tokens::spellings(&fr).into_iter().filter(|(n, _)| !n.starts_with("DUP")).collect();
+                if !sp.is_empty() {
+                    e = rng.pick(&sp).1.clone();
+                    spelled = true;
+                }
+            }
+        }
         lens.push(e.len());
         stream.extend_from_slice(&e);
         ps.push(p);
     }
     let stream = Arc::new(stream);
-    let front = *rng.pick(&["poll", "async", "block"]);
+    // the blocking front-end advances by the ENCODED length of what it decoded, which is only the consumed length
+    // for canonical encodings
+    let front = if spelled { *rng.pick(&["poll", "async"]) } else { *rng.pick(&["poll", "async", "block"]) };
     out.boundary();
     out.hold = true;
     out.ev(json!({"ev": "StreamStart", "run_start": true, "run": run, "fam": F::NAME, "front": front,
